@@ -58,6 +58,10 @@ partial def pItem (inChild : Bool) : List Char → Option (Prog × List Char)
   | 'E' :: r => some (.seterr, r)
   | 'T' :: r => some (.throw, r)
   | 'P' :: r => if inChild then some (.pwrite, r) else none
+  -- `Q`: the continuation calls parent.SetError and then writes to the parent ("writes performed after calling
+  -- SetError are ignored": no panic although a child is pending).  Only as the LAST call of a continuation, where
+  -- its effect on Bytes() equals a SetError on the child: the error surfaces when the child is flushed.
+  | 'Q' :: ')' :: r => if inChild then some (.seterr, ')' :: r) else none
   | _ => none
 /-- a possibly empty comma-separated list, up to `)` or end of input -/
 partial def pItems (inChild : Bool) (cs : List Char) : Option (List Prog × List Char) :=
